@@ -1158,18 +1158,24 @@ def compute_z_zprime_Q2d(cm0, ams, bms, u, t):
         # alloc pressure inside this func; need care since len of any coef vector
         # may be unequal
 
-        if len(a_coef) == 0:
+        if len(a_coef) == 0 and len(b_coef) == 0:
             continue
+
+        # an azimuthal order may be present in only one of the cosine and sine
+        # families; the absent family contributes a zero sum
+        Sa = Sb = Sprimea = Sprimeb = 0
 
         # can't use "as" => as keyword
         Na = len(a_coef) - 1
         Nb = len(b_coef) - 1
-        alphas_a = clenshaw_q2d_der(a_coef, m, usq)
-        alphas_b = clenshaw_q2d_der(b_coef, m, usq)
-        Sa = 0.5 * alphas_a[0][0]
-        Sb = 0.5 * alphas_b[0][0]
-        Sprimea = 0.5 * alphas_a[1][0]
-        Sprimeb = 0.5 * alphas_b[1][0]
+        if Na >= 0:
+            alphas_a = clenshaw_q2d_der(a_coef, m, usq)
+            Sa = 0.5 * alphas_a[0][0]
+            Sprimea = 0.5 * alphas_a[1][0]
+        if Nb >= 0:
+            alphas_b = clenshaw_q2d_der(b_coef, m, usq)
+            Sb = 0.5 * alphas_b[0][0]
+            Sprimeb = 0.5 * alphas_b[1][0]
         if m == 1 and Na > 2:
             Sa -= 2/5 * alphas_a[0][3]
             # derivative is same, but instead of 0 index, index=j==1
